@@ -357,7 +357,7 @@ def hash_formula(df_tree):
          "_L3.alias_or_name in _L1",                                     # the duplicate test
          "_L3 = _L3.transform(replace_id_value, _L4, copy=False)",       # earlier renames reach later CTEs, in place
          "self.session._auto_incrementing_name",                         # a new alias for the copy's inline VALUES
-         "_L5 = exp.Literal.string(uuid.uuid4().hex)",
+         "_L5 = exp.Literal.string(self.session._auto_incrementing_name)",   # the disambiguating literal: a counter draw
          "exp.EQ(this=_L5, expression=_L5)",
          "_L6 = self._create_hash_from_expression(_L3.this)",
          "_L1.add(_L6)",
